@@ -23,6 +23,32 @@ func mergeComponents(a, b map[string]string) map[string]string {
 }
 
 func init() {
+	// world-K halves of the launch properties (their world-S2 halves live in the other build of the
+	// harness; bin/check runs both and the second run merges its evidence into the first's)
+	register(&vcore.Prop{
+		ID: "C04", Level: "exploration", Worlds: "K", NeedNS: true,
+		Rule:       "world K: one run = one option vector (credential, drop-caps, no-new-privs, seccomp, callback, late cgroup unshare, six clone flags, user namespace, host/domain only under a new UTS namespace, workdir, rlimits) launched for real by forkexec with the probe as target; the probe's self-report (capget, securebits, no_new_privs, seccomp mode, ids, groups, session, cwd, uname, rlimits) is compared with the request",
+		Components: kComponents, Assumptions: kAssume,
+		Quick:    vcore.Budget{Wall: 15 * time.Second, Shards: 16},
+		Thorough: vcore.Budget{Wall: 6 * time.Minute, Shards: 16},
+		Init:     kInit, Run: cKLaunchRun("C04", true, false), StallLimit: 120 * time.Second,
+	})
+	register(&vcore.Prop{
+		ID: "C06", Level: "exploration", Worlds: "K", NeedNS: true,
+		Rule:       "world K: one run = one descriptor list of 1..8 entries over {standard streams, three temporary files, the close marker} with the report pipe at a drawn position, x an option vector, launched for real; the probe dumps fstat identity and flags of descriptors 0..23, compared with the caller's list",
+		Components: kComponents, Assumptions: kAssume,
+		Quick:    vcore.Budget{Wall: 15 * time.Second, Shards: 16},
+		Thorough: vcore.Budget{Wall: 6 * time.Minute, Shards: 16},
+		Init:     kInit, Run: cKLaunchRun("C06", false, true), StallLimit: 120 * time.Second,
+	})
+	register(&vcore.Prop{
+		ID: "C07", Level: "fault_enumeration", Worlds: "K", NeedNS: true,
+		Rule:       "world K: one run = one option vector with one failure induced by a real input (missing workdir, missing / garbage / non-executable target, closed descriptor in Files, failing callback, rlimit above the hard limit, host name longer than the kernel accepts); the target's marker file must not appear, the error must name the step, the caller must have no additional child process",
+		Components: kComponents, Assumptions: kAssume,
+		Quick:    vcore.Budget{Wall: 15 * time.Second, Shards: 16},
+		Thorough: vcore.Budget{Wall: 6 * time.Minute, Shards: 16},
+		Init:     kInit, Run: c07KRun, StallLimit: 120 * time.Second,
+	})
 	c10K := &vcore.Prop{
 		ID: "C10", Level: "exploration", Worlds: "K", NeedNS: true,
 		Quick:    vcore.Budget{Wall: 20 * time.Second, Shards: 16},
